@@ -156,3 +156,9 @@ func Reformat(content []byte) []byte {
 	}
 	return out
 }
+
+// WithTrailing returns the JSON value followed by further bytes (a second value): not a valid
+// document, though a streaming decoder's first Decode still yields the value.
+func WithTrailing(content []byte) []byte {
+	return append(append([]byte{}, content...), []byte(`{}`)...)
+}
